@@ -3,7 +3,7 @@ import vpl, os
 from concurrent.futures import ThreadPoolExecutor
 
 LEVEL = "proof"
-LIBS = ["RbcModel.vo", "RbcLemmas.vo", "RbcOrder.vo", "RbcAgreement.vo"]
+LIBS = ["RbcModel.vo", "RbcLemmas.vo", "RbcOrder.vo", "RbcStep.vo", "RbcStep2.vo", "RbcStep3.vo", "RbcAgreement.vo", "RbcBracha.vo"]
 
 def run(res, tier, seed, replay):
     res.cov["rule"] = ("a record = one API call (Broadcast, Deliver, DeliverFrom, setID, recoverID, unsetID) on a real RBC object inside a "
@@ -17,9 +17,9 @@ def run(res, tier, seed, replay):
                         "theorems): collision resistance of SHA-256 is assumed",
                         "the transport hands over only messages that the claimed honest sender really sent (authenticated links); "
                         "reordering and duplication are allowed in the theorems",
-                        "agreement and integrity are proved for slots no honest party fetched through the out-of-order handler "
-                        "(l-retrieve / l-deliver); that path is covered by the correspondence records and the implementation oracle only",
-                        "liveness (delivery at quiescence) is checked on the implementation by the oracle, not proved",
+                        "the digest hash never outputs 0 (the code encodes a missing payload as digest 0)",
+                        "liveness: totality of the agreed digest at ready-quiescence is proved; payload retrieval, deliver-buffer draining and validity "
+                        "for honest senders are checked on the implementation by the oracle, not proved",
                         "real time-outs, Sync() and the fault simulation switch of Broadcast are not modelled"]
     vpl.proof_stage(res, LIBS)
     exe = vpl.build_harness("c14")
